@@ -1,5 +1,5 @@
 // ---- shims for U-SCOPE (C05): HIR side, allocation, and the recursive calls as contract-only stubs ----
-// hir: ids are opaque; only the variants the six fragments build are present (their contents are not part of the contract)
+// hir: ids are opaque; only the variants the verified fragments build are present (their contents are not part of the contract)
 pub mod hir {
     use vstd::prelude::*;
     #[verifier::external_body] #[derive(Clone, Copy)] pub struct ExprId { _p: u64 }
@@ -21,6 +21,12 @@ pub mod hir {
         EIf { cond: ExprId, then_branch: ExprId, else_branch: ExprId },
         EWhile { cond: ExprId, body: ExprId },
         ENameRef { res: NameRef, hint: String, astptr: Option<super::ast::MySyntaxNodePtr> },
+        EUnary { op: super::ast::UnaryOp, expr: ExprId },
+        EBinary { op: super::ast::BinaryOp, lhs: ExprId, rhs: ExprId },
+        EProj { tuple: ExprId, index: usize },
+        ETuple { items: Vec<ExprId> },
+        EArray { items: Vec<ExprId> },
+        EGo { expr: ExprId },
     }
 }
 #[verifier::external_body] pub struct HirTable { _p: u64 }
